@@ -21,7 +21,7 @@ RECURSIVE SgrFrom(_, _, _)
 SgrFrom(pen, ps, i) ==
     IF i > Len(ps) THEN pen
     ELSE LET p == ps[i] IN
-      IF p = 0 THEN SgrFrom(NullPen, ps, i + 1) \* a reset keeps nothing - the link is not an SGR attribute but Rich closes it with the style
+      IF p = 0 THEN SgrFrom([NullPen EXCEPT !.link = pen.link], ps, i + 1)   \* the hyperlink is not an SGR attribute
       ELSE IF p \in 1..9 THEN SgrFrom([pen EXCEPT !.attrs = @ \cup {p}], ps, i + 1)
       ELSE IF p = 21 THEN SgrFrom([pen EXCEPT !.attrs = @ \cup {10}], ps, i + 1)
       ELSE IF p = 22 THEN SgrFrom([pen EXCEPT !.attrs = @ \ {1, 2}], ps, i + 1)
@@ -47,7 +47,16 @@ SgrFrom(pen, ps, i) ==
       ELSE IF p = 55 THEN SgrFrom([pen EXCEPT !.attrs = @ \ {13}], ps, i + 1)
       ELSE SgrFrom(pen, ps, i + 1)                      \* unknown parameters are ignored
 \* ESC[m (no parameter) is a reset
-Sgr(pen, ps) == IF ps = <<>> THEN NullPen ELSE SgrFrom(pen, ps, 1)
+Sgr(pen, ps) == IF ps = <<>> THEN [NullPen EXCEPT !.link = pen.link] ELSE SgrFrom(pen, ps, 1)
+
+\* the parameters of a list that select a colour (30-49, 90-107, and the arguments of 38 / 48)
+RECURSIVE ColourParams(_, _)
+ColourParams(ps, i) ==
+    IF i > Len(ps) THEN 0
+    ELSE IF ps[i] \in {38, 48} THEN 1 + (IF i + 1 <= Len(ps) /\ ps[i + 1] = 5 THEN ColourParams(ps, i + 3)
+                                          ELSE IF i + 1 <= Len(ps) /\ ps[i + 1] = 2 THEN ColourParams(ps, i + 5) ELSE 0)
+    ELSE IF ps[i] \in 30..49 \/ ps[i] \in 90..107 THEN 1 + ColourParams(ps, i + 1)
+    ELSE ColourParams(ps, i + 1)
 
 \* a stream of events  <<"c", cp>> | <<"sgr", params>> | <<"nl">> | <<"link", id>>  shown as lines of <<cp, pen>>
 \* decoding state: [pen, line (current, unfinished), lines (finished)]
